@@ -38,11 +38,10 @@ tvars == <<l, st, sid>>
 Log == ndJsonDeserialize(IOEnv.TRACE)
 N == Len(Log)
 LockMode == Log[1].mode = "lock"
-(* the id range of the file (largest of its executions; lock-mode files are
-   homogeneous, which TNext asserts) *)
-MaxId == LET R == {i \in 1..N : Log[i].e = "Reset"}
-             m == CHOOSE i \in R : \A j \in R : Log[j].maxid <= Log[i].maxid
-         IN Log[m].maxid
+(* the id range of the file: all executions of one file use the same range,
+   which TNext asserts at every Reset.  (Keep this a cheap expression: TLC
+   re-evaluates it at every use.) *)
+MaxId == Log[1].maxid
 Ids == 1..MaxId
 TraceTimers == IF LockMode THEN Ids ELSE {1}
 
@@ -175,7 +174,7 @@ TNext ==
   /\ l <= N
   /\ l' = l + 1
   /\ IF Log[l].e = "Reset"
-     THEN /\ Assert(~LockMode \/ Log[l].maxid = MaxId, "lock-mode trace file mixes id ranges")
+     THEN /\ Assert(Log[l].maxid = MaxId /\ Log[l].mode = Log[1].mode, "trace file mixes id ranges or modes")
           /\ st' = StInit /\ sid' = Log[l].id
      ELSE st' = Step(st, Log[l], l, sid) /\ sid' = sid
 
